@@ -308,7 +308,7 @@ impl Scenario<'_> {
             let st = sub.status();
             if st != Status::Running { sub.drain(&self.parts); return st; }
             if t0.elapsed() > Duration::from_secs(90) { self.err.get_or_insert_with(|| "STUCK:subscription-made-no-progress-for-90s".into()); return Status::Running; }
-            tokio::time::sleep(Duration::from_micros(300)).await;
+            tokio::time::sleep(Duration::from_micros(800)).await;
         }
     }
     async fn poll_wm(&mut self, p: u16) -> u64 {
@@ -468,7 +468,7 @@ async fn run_scenario(root: &std::path::Path, cluster: &mut Option<ActorRef<Clus
     let bg = t[1] == "1";
     let fail = |e: String| Err(format!("{}: {e}", &line[..line.len().min(120)]));
     let dir = match tempfile::tempdir_in(root) { Ok(d) => d, Err(e) => return fail(e.to_string()) };
-    let db = match DatabaseBuilder::new().segment_size_bytes(1024 * 1024).total_buckets(4).bucket_ids_from_range(0..4).reader_threads(2).writer_threads(2).sync_interval(Duration::from_micros(200)).sync_idle_interval(Duration::from_micros(200)).min_sync_bytes(1).open(dir.path()) { Ok(d) => d, Err(e) => return fail(format!("open: {e}")) };
+    let db = match DatabaseBuilder::new().segment_size_bytes(1024 * 1024).total_buckets(4).bucket_ids_from_range(0..4).reader_threads(2).writer_threads(2).sync_interval(Duration::from_millis(1)).sync_idle_interval(Duration::from_millis(2)).min_sync_bytes(1).open(dir.path()) { Ok(d) => d, Err(e) => return fail(format!("open: {e}")) };
     let mut parts: Vec<Part> = (0..NP).map(|_| Part::default()).collect();
     for (p, txs) in layout.iter().enumerate() {
         for tx in txs { if let Err(e) = db_append(&db, &mut parts, p as u16, tx).await { return fail(e); } }
